@@ -51,6 +51,12 @@ Theorem C07_tools_total : forall B maxlen cfg cd blocked cols f, 0 < B -> has_le
 Proof. exact c07_tools_total. Qed.
 Print Assumptions C07_tools_total.
 
+(* ... and so does the CSV text they write (csv writing is total: model/Csv.v) *)
+Theorem C07_csv_tool_total : forall B maxlen cfg cd blocked cols f, 0 < B -> has_lengths cfg -> de43_on_text cfg ->
+  benign (CU.model.Csv.ipm_to_csv_text B maxlen cfg cd blocked cols f).
+Proof. exact c07_csv_tool_total. Qed.
+Print Assumptions C07_csv_tool_total.
+
 (* the packaged configuration is such a configuration (generated obligation, re-proved on every run) *)
 Theorem C07_packaged_sane : has_lengths CU.gen.GenConfig.packaged_bit_config /\ de43_on_text CU.gen.GenConfig.packaged_bit_config.
 Proof. exact c07_packaged_sane. Qed.
